@@ -37,7 +37,7 @@ func TestC14Xid(t *testing.T) {
 	defer c.Done()
 	c.Rule("xid rounds: G in {2,3,4,8,16,32,64} goroutines each draw n ids through openflow13.NewOfp13Header (one shared generator), through generators of their own " +
 		"(common.NewHeaderGenerator) and through message constructors (NewFlowMod, NewEchoRequest, NewPacketOut, ...); in a third of the rounds the process-wide counter is first set just below 2^32 (hook). " +
-		"Oracle: the ids of a round are pairwise distinct (set cardinality), every header carries version 4, and each goroutine's own ids from the shared counter are strictly increasing modulo 2^32. " +
+		"Oracle: the ids of a round are pairwise distinct (set cardinality), every header carries version 4, and each goroutine's own ids are strictly increasing modulo 2^32 (successive differences in (0, 2^31)). " +
 		"batch rounds: programs are rapid.Custom generators evaluated by seed (Example(seed)), so the same program can be run sequentially and then on G goroutines: build a controller message and encode it; " +
 		"encode a conformant switch frame with the model, Parse it, deep-dump it, re-encode it; decode the packet-in payload. Oracle: concurrent bytes and dumps == sequential ones. " +
 		"Non-trivial: G>=2 and measured overlap (every goroutine observed an id of another goroutine between two of its own / goroutines really ran at the same time); distinct by (G, n, seeds).")
@@ -162,7 +162,7 @@ func TestC14Xid(t *testing.T) {
 		// per goroutine monotone (mod 2^32): differences are small positive numbers
 		for gi, l := range ids {
 			for i := 1; i < len(l); i++ {
-				if d := l[i] - l[i-1]; d == 0 || d > uint32(4*g*n+64) {
+				if d := l[i] - l[i-1]; d == 0 || d >= 1<<31 {
 					c.Report(t, "C14|xid|not-monotone", fmt.Sprintf("%s: goroutine %d drew %#x after %#x", desc, gi, l[i], l[i-1]), desc)
 					return
 				}
